@@ -199,4 +199,20 @@ PROPS = {
         level_text="Randomised exploration of leader histories x polling/compaction/restart schedules with an exact per-index content oracle.",
         level_note="Trusted: model; the worker loop body is re-stated in the verif hook (replication/export_verif.go Poll).",
     ),
+    "C10": dict(
+        pkg="c10", level="exploration",
+        tests=[T("TestC10", Q(4000), Q(20000, timeout=900, shards=12, shrinktime="60s")),
+               T("TestC10Conc", Q(500, timeout=300), Q(3000, timeout=1200, shards=4, shrinktime="60s"))],
+        rule="TestC10 (deterministic): 2-3 real state-machine replicas behind an in-memory raft stand-in (shared log, per-replica lag controlled by the case, generated grouping of entries into Update calls); 2-30 operations by clients "
+             "bound to replicas through the real table.ActiveTable API: put, delete(range), txn (incl. both branches empty and taken-branch-empty), range reads linearizable/serializable, read-only txn, catch-up(n). Oracle: every acknowledged "
+             "mutation reports revision == its log position (non-zero, strictly increasing), responses == model replay in revision order, linearizable read / read-only txn == model at the commit index at call time even on a lagging replica, "
+             "serializable read == model at the replica's applied index. Non-trivial iff a read was served by a replica with unapplied acknowledged writes or a txn with an empty executed branch occurred. "
+             "TestC10Conc: 2-6 goroutines issue 3-15 operations each against one real storage.Engine; logical start/end stamps; oracle: revisions unique, non-zero, consistent with real-time order; replaying mutations in revision order explains "
+             "txn outcomes; each read equals the state after some prefix between 'all writes acknowledged before it started' (linearizable, read-only txn) / 0 (serializable) and 'all writes started before it ended'. Non-trivial iff a read overlapped a write.",
+        assumptions=["the raft stand-in encodes dragonboat's documented semantics: SyncPropose returns the local replica's apply result, SyncRead = ReadIndex at call time, StaleRead = local applied state",
+                     "TestC10Conc uses a single-node engine (no lagging replica there)"],
+        technique="stateful property-based testing with a harness-controlled replication schedule + history checking of concurrent executions",
+        level_text="Randomised exploration of client histories x replica lag; concurrent histories on a real engine checked by an order-based history invariant.",
+        level_note="Trusted: internal/simraft semantics; internal/model.",
+    ),
 }
